@@ -277,6 +277,7 @@ def generate(rng, index, tier):
         'classes': classes, 'friends': friends, 'blocked': blocked, 'files': files, 'shared': shared,
         'excluded': excluded, 'slots': rng.choice([0, 0, 1, 2]), 'speed_kbps': rng.choice([0, 8, 8, 30]),
         'busy': rng.choice([0.5, 2.0, 4.0]) if rng.random() < 0.25 else None,
+        'hold_items': rng.random() < 0.3,
         'dl': dl, 'parent': rng.random() < 0.8, 'inplace': rng.random() < 0.3, 'steps': steps,
     }
 
@@ -378,6 +379,7 @@ def corpus(tier):
                  {'op': 'remove', 'dir': ['pub', 'inner'], 'gap': 9.0}, search('u1', 'server', 'deep', gap=0.05),
                  q('u1', 'pub/inner/secret demo.mp3', gap=9.0)]
         out.append(_plan(three, steps, slots=0))
+        out.append(_plan(three, steps, slots=0, hold_items=True))
     # 7. a change reverted before / after the settings poll, with a request in between
     for gap in (0.05, 0.3, 1.2):
         out.append(_plan(three, [{'op': 'friend', 'user': 'u1', 'value': True, 'gap': 3.0}, q('u1', 'priv/secret song.mp3', gap=gap),
@@ -1108,9 +1110,17 @@ def _run(world: World, plan):
                 world.call(alice, 'pause', tm.pause, rec['transfer'])
         world.trace('step', op)
 
+    held_items = []
+
     async def main():
         await world.start_client(alice)
         await do_scan('scan')
+        if plan.get('hold_items'):
+            # the application keeps the item objects it has seen (results of earlier queries, the items of the shared
+            # directories): items that the library only holds weakly stay alive
+            for d in alice.client.shares.shared_directories:
+                held_items.extend(list(d.items))
+            world.disk.fired['application_keeps_shared_items'] += 1
         if plan.get('parent'):
             server.send_to('alice', M.PotentialParents.Response(
                 [PotentialParent(PARENT, parent.host.ip, parent.port)]))
